@@ -25,6 +25,7 @@ const (
 	fUseGlob             // public function reading the file's own global (needs fGlobal)
 	fDeep                // public function calling into the file's own import (set by the graph)
 	fUnder               // underscore-led private names (global _cnt, function _step) used by a public function
+	fPub                 // PUBLIC global Total, changed through the public Add (also by the top-level code of every importer) and by the file's own top-level code
 )
 
 type c09Lib struct {
@@ -34,7 +35,11 @@ type c09Lib struct {
 	twinOf  int   // != 0: the file has exactly the statements of library twinOf (same constants); only a comment differs
 }
 
-func c09LibProg(l c09Lib) *Prog {
+func c09LibProg(l c09Lib) *Prog { return c09LibProgIn(l, nil) }
+
+// c09LibProgIn: libs are the libraries of the case (the top-level code of an importer changes the public state of
+// the files it imports)
+func c09LibProgIn(l c09Lib, libs []c09Lib) *Prog {
 	p := &Prog{}
 	for _, j := range l.imports {
 		p.Imports = append(p.Imports, Import{Alias: fmt.Sprintf("d%d", j), Path: fmt.Sprintf("l%d.tsh", j)})
@@ -60,6 +65,23 @@ func c09LibProg(l c09Lib) *Prog {
 			FuncDef{Name: "_step", Rets: []Type{TInt}, Body: []Stmt{Return{Vals: []Expr{lit(id)}}}},
 			FuncDef{Name: "Next", Rets: []Type{TInt}, Body: []Stmt{OpAssign{Name: "_cnt", Op: "+", Val: Call{Fn: "_step"}}, Return{Vals: []Expr{Var{"_cnt"}}}}},
 		)
+	}
+	if l.feat&fPub != 0 {
+		p.Stmts = append(p.Stmts,
+			Define{Names: []string{"Total"}, Form: DefShort, Vals: []Expr{lit(id * 13)}},
+			FuncDef{Name: "Add", Params: []Param{{"k", TInt}}, Body: []Stmt{OpAssign{Name: "Total", Op: "+", Val: Var{"k"}}}},
+			FuncDef{Name: "Tot", Rets: []Type{TInt}, Body: []Stmt{Return{Vals: []Expr{Var{"Total"}}}}},
+			OpAssign{Name: "Total", Op: "+", Val: lit(1)},
+			Print{Args: []Expr{StrLit{V: fmt.Sprintf("tot%d", id)}, Var{"Total"}}})
+	}
+	for _, j := range l.imports {
+		for _, o := range libs {
+			if o.id == j && o.feat&fPub != 0 {
+				// this file registers itself with the file it imports while it is loaded
+				p.Stmts = append(p.Stmts, ExprStmt{X: Call{Alias: fmt.Sprintf("d%d", j), Fn: "Add", Args: []Expr{lit(id * 5)}}},
+					Print{Args: []Expr{StrLit{V: fmt.Sprintf("reg%d", id)}, Call{Alias: fmt.Sprintf("d%d", j), Fn: "Tot"}}})
+			}
+		}
 	}
 	if l.feat&fUseGlob != 0 && l.feat&fGlobal != 0 {
 		p.Stmts = append(p.Stmts, FuncDef{Name: "Cnt", Rets: []Type{TInt}, Body: []Stmt{Return{Vals: []Expr{Binary{Op: "+", L: Var{"count"}, R: lit(1000)}}}}})
@@ -127,6 +149,10 @@ func c09MainProg(c c09Case) *Prog {
 		if l.feat&fUnder != 0 {
 			args = append(args, Call{Alias: mi[0], Fn: "Next"}, Call{Alias: mi[0], Fn: "Next"})
 		}
+		if l.feat&fPub != 0 {
+			p.Stmts = append(p.Stmts, ExprStmt{X: Call{Alias: mi[0], Fn: "Add", Args: []Expr{lit(3)}}})
+			args = append(args, Call{Alias: mi[0], Fn: "Tot"})
+		}
 		for _, j := range l.imports {
 			args = append(args, Call{Alias: mi[0], Fn: fmt.Sprintf("Deep%d", j)})
 		}
@@ -168,7 +194,7 @@ func withNonce(src string, want string) string {
 
 func c09Cases(thorough bool) []c09Case {
 	var out []c09Case
-	feats := []int{0, fPriv, fPriv | fGlobal, fPriv | fInit, fGlobal | fUseGlob, fPriv | fGlobal | fInit | fUseGlob, fUnder, fUnder | fPriv | fGlobal | fInit | fUseGlob}
+	feats := []int{0, fPriv, fPriv | fGlobal, fPriv | fInit, fGlobal | fUseGlob, fPriv | fGlobal | fInit | fUseGlob, fUnder, fUnder | fPriv | fGlobal | fInit | fUseGlob, fPub, fPub | fUnder | fPriv | fGlobal | fInit | fUseGlob}
 	nonces := []string{"", "1", "c"} // first hex digit of the content hash: unconstrained, a digit, a letter
 	if thorough {
 		nonces = []string{"", "0", "1", "2", "3", "4", "5", "6", "7", "8", "9", "a", "b", "c", "d", "e", "f"}
@@ -229,7 +255,7 @@ func c09Cases(thorough bool) []c09Case {
 		type triple [3]int
 		var f3 []triple
 		all := fPriv | fGlobal | fInit | fUseGlob | fUnder
-		f3 = append(f3, triple{all, all, all})
+		f3 = append(f3, triple{all, all, all}, triple{all | fPub, all | fPub, all | fPub})
 		if thorough {
 			f3 = nil
 			for _, a := range feats {
@@ -353,7 +379,7 @@ func C09() int {
 		files := map[string]string{}
 		for _, l := range c.libs {
 			name := fmt.Sprintf("l%d.tsh", l.id)
-			p := c09LibProg(l)
+			p := c09LibProgIn(l, c.libs)
 			progs[name] = p
 			files[name] = c09LibSource(c, l, p)
 			h := sha256.Sum256([]byte(files[name]))
